@@ -2631,6 +2631,9 @@ class PGPKey(Armorable, ParentRef, PGPObject):
                     return self.last
             return PktGrouper()
 
+        # the primary key that user ids, subkeys and their signatures currently attach to
+        primary = None
+
         while True:
             for group in iter(group for _, group in itertools.groupby(getpkt, key=pktgrouper()) if not _.endswith('Opaque')):
                 pkt = next(group)
@@ -2652,13 +2655,16 @@ class PGPKey(Armorable, ParentRef, PGPObject):
                 if isinstance(pgpobj, PGPKey):
                     if pgpobj.is_primary:
                         keys[(pgpobj.fingerprint.keyid, pgpobj.is_public)] = pgpobj
+                        primary = pgpobj
 
                     else:
-                        keys[next(reversed(keys))] |= pgpobj
+                        # (re-assigning an existing dict key keeps its old position, so the last dict
+                        # entry is not always the most recently parsed primary key)
+                        primary |= pgpobj
 
                 elif isinstance(pgpobj, PGPUID):
-                    # parent is likely the most recently parsed primary key
-                    keys[next(reversed(keys))] |= pgpobj
+                    # parent is the most recently parsed primary key
+                    primary |= pgpobj
 
                 else:  # pragma: no cover
                     break
